@@ -383,7 +383,18 @@ def check_sidecar(case):
             require(values_match(back.array, expected_values(arr, fc["rep"]), fc["rep"]), "sidecar-values")
 
 
+def enum_large(tier):
+    """fields with more than 100 000 numbers: the writer works in chunks of that size"""
+    for rep in REPS:
+        for n, k in (((47, 31, 23), 3),) + ((((101, 33, 31), 1),) if tier == "thorough" else ()):
+            yield {"g": {"p1": [0.0, 0.0, 0.0], "p2": [n[0] * 1e-9, n[1] * 2e-9, n[2] * 0.5e-9], "n": list(n), "dims": None,
+                         "units": None, "tol": None, "exp": -9}, "subs": [], "k": k, "vdims": None, "unit": "A/m",
+                   "vals": "wide" if rep != "bin4" else "int", "seed": 7, "rep": rep, "extend_scalar": False,
+                   "save_subregions": False, "ext": ".omf"}
+
+
 SUBS = [
+    Sub("roundtrip-large", check_roundtrip, enum=enum_large, nontrivial=nontrivial, enum_shards=lambda t: 3),
     Sub("roundtrip", check_roundtrip, field_case(), nontrivial=nontrivial, quick=500, thorough=4000),
     Sub("foreign", check_foreign, foreign_case(), nontrivial=nontrivial, quick=400, thorough=3000),
     Sub("truncation", check_truncation, enum=enum_truncation, enum_shards=lambda t: 4 if t == "quick" else 12),
